@@ -37,6 +37,7 @@ func checkC07(c *core.Ctx) {
 	c07Reducers(c)
 	c07Strings(c)
 	c07Dedup(c)
+	c07DataLaws(c)
 	c.Rule("ORDABS.map-struct-constructors-canonical", "the map and struct constructors (ast.Map, ast.Struct with the interpreted key sorter) build one constant from the same entries in every supply order, also for keys that agree in hash and Symbol field: what is put in is what the accessors return, whatever the order (obligation shared with C08)", 2)
 	c.Under("ORDABS.map-struct-constructors-canonical", []string{rC08Order}, func() { c08OrderFnv(c) })
 }
